@@ -183,6 +183,13 @@ class Ctx:
             return None
         return [st.target.id for st in obj.node.body if isinstance(st, ast.AnnAssign) and isinstance(st.target, ast.Name)]
 
+    def module_at(self, fi: FuncInfo, node):
+        """The module whose names the code at CFG *node* of *fi* refers to (the helper's module for inlined code)."""
+        q = getattr(node, "extra", {}).get("inlined_from") if node is not None else None
+        if q and q in self.program.functions:
+            return self.program.functions[q].module
+        return fi.module
+
     def func_of_node(self, fnode) -> Optional[FuncInfo]:
         m = getattr(self, "_by_node", None)
         if m is None:
